@@ -124,6 +124,17 @@ pub struct Machine<'a> {
     pub executed: u64,
     /// Number of ops executed including children.
     pub executed_total: u64,
+    /// One entry per executed (top-level) Compute.
+    pub compute_log: Vec<ComputeInfo>,
+}
+
+#[derive(Clone, Debug, Default, PartialEq, Eq)]
+pub struct ComputeInfo {
+    pub breadth: i64,
+    pub distinct_end_pcs: usize,
+    pub distinct_mem_sizes: usize,
+    pub failing_children: usize,
+    pub ok: bool,
 }
 
 fn pop(s: &mut Vec<i64>) -> Result<i64, ErrClass> {
@@ -243,6 +254,7 @@ impl<'a> Machine<'a> {
             max_visited: None,
             executed: 0,
             executed_total: 0,
+            compute_log: Vec::new(),
         }
     }
 
@@ -344,6 +356,8 @@ impl<'a> Machine<'a> {
         let mut gas_fail = false;
         let mut other_fail = false;
         let mut unspec: Option<&'static str> = None;
+        let mut end_pcs: Vec<usize> = Vec::new();
+        let mut failing = 0usize;
         for i in 0..breadth {
             let mut stack = self.st.stack.clone();
             stack.push(i); // always fits: the breadth word was just popped
@@ -363,6 +377,7 @@ impl<'a> Machine<'a> {
                 max_visited: None,
                 executed: 0,
                 executed_total: 0,
+                compute_log: Vec::new(),
             };
             let r = child.run();
             self.executed_total += child.executed_total;
@@ -376,16 +391,35 @@ impl<'a> Machine<'a> {
                         }
                     }
                     max_pc = max_pc.max(f);
+                    end_pcs.push(f);
                     mems.push(child.st.memory);
                 }
-                RunResult::Err { class, .. } => match class {
-                    ErrClass::OutOfGas { .. } | ErrClass::OutOfGasInCompute => gas_fail = true,
-                    _ => other_fail = true,
-                },
+                RunResult::Err { class, .. } => {
+                    failing += 1;
+                    match class {
+                        ErrClass::OutOfGas { .. } | ErrClass::OutOfGasInCompute => gas_fail = true,
+                        _ => other_fail = true,
+                    }
+                }
                 RunResult::Unspec(r) => unspec = Some(r),
                 RunResult::OverBudget => return Event::OverBudget,
                 RunResult::ExcludedBreadth => return Event::ExcludedBreadth,
             }
+        }
+        {
+            let mut e = end_pcs.clone();
+            e.sort();
+            e.dedup();
+            let mut ms: Vec<usize> = mems.iter().map(|m| m.len()).collect();
+            ms.sort();
+            ms.dedup();
+            self.compute_log.push(ComputeInfo {
+                breadth,
+                distinct_end_pcs: e.len(),
+                distinct_mem_sizes: ms.len(),
+                failing_children: failing,
+                ok: false,
+            });
         }
         if other_fail || gas_fail {
             // A failing child fails the parent whatever else is unspecified.
@@ -417,6 +451,9 @@ impl<'a> Machine<'a> {
         }
         self.gas += gas_sum;
         self.st.pc = max_pc;
+        if let Some(l) = self.compute_log.last_mut() {
+            l.ok = true;
+        }
         Event::Continue
     }
 
